@@ -253,6 +253,8 @@ class CVIART(BaseART):
         self.is_fitted_ = True
 
         self.W: list[np.ndarray] = []
+        self.base_module.weight_sample_counter_ = []
+        self.base_module.sample_counter_ = 0
         self.labels_ = np.zeros((X.shape[0],), dtype=int)
         for _ in range(max_iter):
             for index, x in enumerate(X):
